@@ -10,7 +10,7 @@ use stun_types::message::{Message, MessageClass};
 
 use crate::common::*;
 use crate::ensure;
-use crate::gen::{self, class_num, MsgSpec, WireSpec};
+use crate::gen::{self, class_num, MsgSpec, WireAttr, WireSpec};
 use crate::refattrs::{self, Kind};
 use crate::refstun::{self, RefParse};
 
@@ -438,6 +438,47 @@ pub fn run(ctx: &Ctx) -> EvidenceMeta {
         st.exhaustive_parts.push("comprehension_required for all 65536 attribute types".into());
         st.class_n("classification", 65536);
         ctx.merge_stats(st);
+    }
+    // count scale: requests with n distinct small attributes (comprehension-required and optional
+    // alternating, or all comprehension-required), nothing / every other one / all but one supported:
+    // the 420 answer must list every unsupported comprehension-required type, however many there are
+    // (an UNKNOWN-ATTRIBUTES value holds 32 767 types; n next to powers of two, round numbers and
+    // what fits an MTU-sized answer)
+    {
+        let ns: &[usize] = if ctx.quick() {
+            &[15, 16, 17, 63, 64, 65, 100, 127, 128, 129, 239, 240, 241, 255, 256, 257, 270, 500, 1000, 1001, 4096, 10_000, 16_000]
+        } else {
+            &[15, 16, 17, 31, 32, 33, 63, 64, 65, 100, 127, 128, 129, 200, 239, 240, 241, 255, 256, 257, 270, 300, 500, 511, 512, 513, 730, 740, 1000, 1001, 1023, 1024, 1025, 2000, 4095, 4096, 4097, 8192, 10_000, 16_000, 16_300]
+        };
+        let mut items = vec![];
+        for &n in ns {
+            for variant in 0..4u8 {
+                let attrs: Vec<WireAttr> = (0..n)
+                    .map(|i| WireAttr::Plain {
+                        ty: if variant % 2 == 0 || i % 2 == 0 { 0x0100 + i as u16 } else { 0x8100 + i as u16 },
+                        value: Hex(vec![]),
+                        pad: 0,
+                    })
+                    .collect();
+                items.push(Case {
+                    src: Src::Wire(WireSpec {
+                        mtype: 1,
+                        tid: n as u128,
+                        attrs,
+                        creds: refstun::Creds::Short { password: "n".into() },
+                        defect: gen::Defect::None,
+                    }),
+                    // bits 52.. select the single-cause construction when zero: keep them set
+                    sup_sel: (3u64 << 52) | [0u64, 0x5555_5555_5555, 1, 0xffff_ffff_fffe][variant as usize],
+                    req_sel: 3u64 << 52,
+                    extra_sup: vec![],
+                    extra_req: vec![],
+                    long_req: 0,
+                    long_sup: 0,
+                });
+            }
+        }
+        ctx.enumerate("count-sweep", &items, test);
     }
     let long = || prop_oneof![12 => Just(0u16), 1 => 2u16..=40, 1 => 60u16..=70, 1 => 120u16..=135, 1 => 250u16..=260, 1 => 0u16..=600];
     let sel = || prop_oneof![2 => any::<u64>(), 1 => Just(0u64), 2 => Just(u64::MAX), 1 => (0u32..8).prop_map(|b| !(1u64 << b))];
